@@ -117,7 +117,7 @@ def build(tier):
         Target('bundle_moveto', [mv(), a4()], H, replace=['bundle_append4']),
         Target('bundle_ctor', [ctor, a4()], H, replace=['bundle_append4']),
         Target('bundle_econverged', [econv, size(), cap()], H, replace=acc), Target('bundle_sconverged', [sconv, size(), cap()], H, replace=acc),
-    ] + protocol.targets(['NV_C03']) + [protocol.ellipsoid()]
+    ] + protocol.targets(['NV_C03']) + [protocol.ellipsoid(), protocol.state_ctor()]
     return {
         'targets': targets, 'vcs': [], 'bounded': [lemma.target()],
         'decided': ['bundle_t representation invariant 0 < m_size < capacity() after append / moveto (and from m_size >= 0, as the constructor uses append); every index written into m_bundleE / m_bundleS / m_alphas lies in [0, capacity()); delete_largest reads m_alphas inside [0, size()) and a full bundle loses at least `count` entries',
@@ -150,6 +150,9 @@ def replay(rp):
         rc, so, se = replaylib.run_driver(exe, [10, 40], timeout=600)
         out['runs'].append({'exit': rc, 'output': so.strip()[-3000:]})
         out['reproduced'] = rc == 1
+        return out
+    if not any(k in rp.get('target', '') for k in ('bundle', 'lemma')):
+        out['note'] = 'no native scenario for this target: the replay file carries the verifier output only'
         return out
     exe = replaylib.build_with_library('replay/C03_replay.cpp', 'C03_replay')
     for msize in (2, 3):
